@@ -155,7 +155,7 @@ theorem template_error_positioned (reg : Registry) (root : Json) (fuel : Nat) (n
   cases fuel with
   | zero => simp [renderTemplate] at h
   | succ fuel =>
-    simp only [renderTemplate, RM.bind_def, RM.bnd_apply, RM.get_apply, RM.modify_apply, Tmpl.name, Tmpl.elements, Tmpl.mapping] at h
+    simp only [renderTemplate, RM.bind_def, RM.bnd_apply, RM.get_apply, RM.modify_apply, RM.modifyAux_apply, Tmpl.name, Tmpl.elements, Tmpl.mapping] at h
     cases hr : renderElems reg root fuel name es m { rc with currentTemplate := name } out with
     | ok a rc1 o1 =>
       rw [hr] at h
